@@ -1,0 +1,18 @@
+"""Verification hooks (off unless the environment variable TAWAZI_VERIF is set to 1).
+
+A verification harness installs a callable in `sink`; `emit` calls it synchronously in the
+emitting thread. With the guard off (the default) `emit` is never reached: every call site
+tests `ENABLED` first.
+"""
+import os
+from typing import Any, Callable, Optional
+
+ENABLED: bool = os.environ.get("TAWAZI_VERIF") == "1"
+
+sink: Optional[Callable[..., None]] = None
+
+
+def emit(event: str, **fields: Any) -> None:
+    """Forward an event to the installed sink (if any)."""
+    if sink is not None:
+        sink(event, **fields)
